@@ -278,6 +278,32 @@ func runC16(seed int64, count int) {
 		switch i % 5 {
 		case 0: // encoder against the model, then the implementation's own round trip (optionally through a frame codec)
 			tree := genObject(rng, 3, !useNumber)
+			if rng.Intn(3) == 0 {
+				// two objects are encoded before the first one's frame is read by whatever is below the codec
+				// (a corking handler, or the head handler waiting for the message lock of a concurrent writer)
+				tree2 := genObject(rng, 2, !useNumber)
+				var held [2][]netty.Message
+				okh := true
+				func() {
+					defer func() {
+						if r := recover(); r != nil {
+							okh = false
+						}
+					}()
+					c.HandleWrite(&fakeCtx{onWrite: func(m netty.Message) { held[0] = append(held[0], m) }}, tree)
+					c.HandleWrite(&fakeCtx{onWrite: func(m netty.Message) { held[1] = append(held[1], m) }}, tree2)
+				}()
+				if okh {
+					for k, t := range []map[string]interface{}{tree, tree2} {
+						var hb []byte
+						for _, m := range held[k] {
+							x, _ := flattenMsg(m)
+							hb = append(hb, x...)
+						}
+						emit("C16 enc %s %s", hexOrDash(hb), tokens(t))
+					}
+				}
+			}
 			b, ok := jsonWrite(c, tree)
 			if !ok {
 				emit("C16 crash marshal")
@@ -392,18 +418,34 @@ func runC16(seed int64, count int) {
 				}
 			}
 			tc := format.TextCodec()
+			// the text codec alone, or above a length-prefixing frame codec: the frame codec gets the very message the
+			// text codec emits (not a flattened copy), as in a pipeline
+			var fc codec.Codec
+			switch rng.Intn(5) {
+			case 0:
+				fc = frame.LengthFieldCodec(binary.BigEndian, 1<<24, 0, 4, 0, 4)
+			case 1:
+				fc = frame.VarintLengthFieldCodec(1 << 24)
+			case 2:
+				fc = frame.LengthFieldCodec(binary.LittleEndian, 1<<24, 0, 2, 0, 2)
+				if n > 60000 {
+					fc = nil
+				}
+			}
 			var wire []byte
-			tc.HandleWrite(&fakeCtx{onWrite: func(m netty.Message) { x, _ := flattenMsg(m); wire = append(wire, x...) }}, string(s))
 			var got string
 			delivered := false
 			func() {
 				defer func() { recover() }()
+				sink := &fakeCtx{onWrite: func(m netty.Message) { x, _ := flattenMsg(m); wire = append(wire, x...) }}
+				if fc != nil {
+					tc.HandleWrite(&fakeCtx{onWrite: func(m netty.Message) { fc.HandleWrite(sink, m) }}, string(s))
+				} else {
+					tc.HandleWrite(sink, string(s))
+				}
 				onRead := func(m netty.Message) { got, delivered = m.(string), true }
-				if rng.Intn(2) == 0 {
-					lf := frame.LengthFieldCodec(binary.BigEndian, 1<<24, 0, 4, 0, 4)
-					var framed []byte
-					lf.HandleWrite(&fakeCtx{onWrite: func(m netty.Message) { x, _ := flattenMsg(m); framed = append(framed, x...) }}, wire)
-					lf.HandleRead(&fakeCtx{onRead: func(m netty.Message) { tc.HandleRead(&fakeCtx{onRead: onRead}, m) }}, bytes.NewReader(framed))
+				if fc != nil {
+					fc.HandleRead(&fakeCtx{onRead: func(m netty.Message) { tc.HandleRead(&fakeCtx{onRead: onRead}, m) }}, bytes.NewReader(wire))
 				} else {
 					tc.HandleRead(&fakeCtx{onRead: onRead}, carrier(rng, wire))
 				}
